@@ -373,6 +373,39 @@ fn main() {
         }
         rep.notes.push(format!("vectorised forms compared with their elementwise reference: {}", nvec));
     }
+    // hashing that ignores the representation, observed the only way a program can observe it: through a
+    // hash container.  For every special value that fits a machine word, the value held as a machine word and
+    // held in big representation must be ONE key of a set / dict (equal keys with different hashes land in
+    // different buckets with overwhelming probability; 8 neighbours per probe make an accidental pass
+    // negligible)
+    {
+        let i64min = -num::pow(BigInt::from(2), 63);
+        let i64max = num::pow(BigInt::from(2), 63) - 1;
+        let mut nh = 0u64;
+        for v in specials.iter().filter(|v| **v >= i64min && **v <= i64max) {
+            let small = produce(v, 0);
+            let big = produce(v, 2);
+            let near: Vec<String> = (1..=8).map(|d| lit(&(v + BigInt::from(d * 1000)))).collect();
+            let probes = [
+                (format!("len(set([{}, {}, {}]))", small, big, near.join(", ")), "9".to_string()),
+                (format!("({}) in {{{}: 1, {}}}", big, small, near.iter().map(|n| format!("{}: 0", n)).collect::<Vec<_>>().join(", ")), "1".to_string()),
+                (format!("{{{}: 7, {}}}[{}]", big, near.iter().map(|n| format!("{}: 0", n)).collect::<Vec<_>>().join(", "), small), "7".to_string()),
+                (format!("count_distinct([{}, {}, {}, {}])", small, big, big, small), "1".to_string()),
+            ];
+            for (src, want) in probes.iter() {
+                let got = interp.eval(src);
+                nh += 1;
+                rep.case(src, true);
+                rep.arm("hash-container");
+                let g = got.class();
+                let w = format!("ok {}", want);
+                if g != w {
+                    rep.judge("hash-container", src, &g, &w, &w);
+                }
+            }
+        }
+        rep.notes.push(format!("hash-container probes (machine word vs big representation as one key): {}", nh));
+    }
     for (op, fsrc, got, want) in &frozen_diffs {
         rep.case(fsrc, true);
         rep.arm("freeze-fold");
